@@ -33,8 +33,8 @@ PROPS = {
     ),
     "C12": dict(
         verus=["glyf", "charstring"],
-        standins=["fontsubset"],
-        not_decided="proved per function: component closure, glyph-index remapping, instruction stripping (result is the same glyph description with instructionLength 0 / WE_HAVE_INSTRUCTIONS cleared), glyf/loca assembly (every loca entry decodes to the real, even start offset of its glyph), hmtx rebuild (entry k = metrics of the original glyph that became glyph k). Not proved: that these compose to 'same flattened outline' (needs a glyf renderer as spec: covered only by the bounded stand-in fontsubset, synthetic fonts with an independent glyf reader), hhea/maxp/head rebuild and the table directory (stand-in only), cmap glyph selection. CFF: the charstring desubroutiniser is under contract (unit charstring: Type 2 number decoding and subroutine bias against Technical Note #5177, operand-stack bookkeeping invariant, hint-mask width = ceil(stems declared incl. the implicit vstemhm / 8) and fixed after the first mask, every non-call byte copied verbatim, termination through the depth bound); NOT that the inlined subroutine bodies are the right ones end to end (subr_item / INDEX lookup is a stub), nor the CFF table rebuild (Top DICT, charset, FDSelect, offsets) of cff_subsetter.rs, which has neither a contract nor a stand-in",
+        standins=["fontsubset", "cffindex"],
+        not_decided="proved per function: component closure, glyph-index remapping, instruction stripping (result is the same glyph description with instructionLength 0 / WE_HAVE_INSTRUCTIONS cleared), glyf/loca assembly (every loca entry decodes to the real, even start offset of its glyph), hmtx rebuild (entry k = metrics of the original glyph that became glyph k). Not proved: that these compose to 'same flattened outline' (needs a glyf renderer as spec: covered only by the bounded stand-in fontsubset, synthetic fonts with an independent glyf reader), hhea/maxp/head rebuild and the table directory (stand-in only), cmap glyph selection. CFF: the charstring desubroutiniser is under contract (unit charstring: Type 2 number decoding and subroutine bias against Technical Note #5177, operand-stack bookkeeping invariant, hint-mask width = ceil(stems declared incl. the implicit vstemhm / 8) and fixed after the first mask, every non-call byte copied verbatim, termination through the depth bound) and so is the INDEX writer build_cff_index / write_offset (offset k = 1 + total length of the items before k, offSize wide enough); NOT that the inlined subroutine bodies are the right ones end to end (subr_item / INDEX lookup is a stub), nor the CFF table rebuild (Top DICT, charset, FDSelect, offsets) of cff_subsetter.rs, which has neither a contract nor a stand-in",
     ),
     "C04": dict(
         verus=["prevmerge"],
@@ -115,7 +115,7 @@ PROPS = {
         verus=["rc4", "objkey", "alg2b"],
         standins=["crypto-ref"],
         kani=[K("c05_perm_new_and_flags", "encryption/permissions.rs", "Permissions::new/from_flags/flags/all")] +
-             [K(f"c23_pad_password_{n}", "encryption/standard_security.rs", "StandardSecurityHandler::pad_password") for n in (0, 1, 31, 32, 33)],
+             [K(f"c23_pad_password_{n}", "encryption/standard_security.rs", "StandardSecurityHandler::pad_password") for n in (0, 1, 31, 32, 33, "split2", "split3", "split4")],
         not_decided="AES-CBC/PKCS#7 (aes, cbc crates), MD5/SHA (md5, sha2 crates); Algorithm 2 (compute_key_from_padded) is proved against the ISO definition with md5 uninterpreted; Algorithm 2.B (compute_hash_r6_algorithm_2b) is proved equal to the ISO 32000-2 definition (alg2b: 64 x (password + K + U[0..48]) zero-padded, AES-128-CBC without padding under K[0..16] / K[16..32], hash chosen by the first 16 bytes of E modulo 3 -- the byte-sum shortcut is justified by a lemma --, at least 64 rounds, stop when the last byte of E <= rounds - 32, first 32 bytes) with SHA-2 and AES uninterpreted; Algorithm 3 (compute_owner_hash) and Algorithms 4/5 (compute_user_hash_from_padded, which calls the proved Algorithm 2) are proved equal to their ISO 32000-1 definitions with md5 uninterpreted, RC4 as specified in unit rc4 and the password padding as proved by the Kani harnesses; Algorithms 8-10 (R5/R6 entries) are compared with an independent transcription only by the bounded stand-in crypto-ref",
     ),
     "C26": dict(
